@@ -18,19 +18,63 @@ import urllib.parse
 from . import common
 
 PROPERTY = 'C03'
-LEAN_TARGETS = ['CpProofs.C03', 'drv_c03']
+LEAN_TARGETS = ['CpProofs.C03', 'CpProofs.C03Tables', 'drv_c03']
 DRIVER = 'drv_c03'
 THEOREMS = [
-    'CpProofs.C03.lookup_assign',
+    # the property, over the model
+    'CpProofs.C03.C03_qs_roundtrip',
+    'CpProofs.C03.C03_body_roundtrip',
+    'CpProofs.C03.C03_all_or_nothing_refused',
+    'CpProofs.C03.C03_all_or_nothing_accepted',
+    'CpProofs.C03.parseQsPairs_eq_none',
+    'CpProofs.C03.C03_merge',
+    'CpProofs.C03.C03_merge_imagemap',
+    'CpProofs.C03.C03_imagemap',
+    'CpProofs.C03.C03_imagemap_only_exact',
+    'CpProofs.C03.imageMap_iff',
+    'CpProofs.C03.not_imageMap_of_withEq',
+    'CpProofs.C03.C03_handle_cases',
+    'CpProofs.C03.C03_request_roundtrip',
+    'CpProofs.C03.C03_request_roundtrip_query_only',
+    # the load-bearing lemmas
+    'CpProofs.C03.query_unquote_styled',
+    'CpProofs.C03.body_unquote_styled',
+    'CpProofs.C03.pieces_joinSegs',
+    'CpProofs.C03.rawPairs_bodyWire',
+    'CpProofs.C03.processUrlencoded_eq',
     'CpProofs.C03.lookup_addAll',
     'CpProofs.C03.lookup_mergeBody',
+    'CpProofs.C03.utf8_rt',
+    'CpProofs.C03.latin1_rt',
+    'CpProofs.C03.recodeQS_utf8',
+    'CpProofs.C03.attemptCharsets_declared',
+    # tables regenerated from the live modules
+    'CpProofs.C03.tables_imagemap_pattern',
+    'CpProofs.C03.tables_defaults',
+    'CpProofs.C03.tables_body_pct1',
+    'CpProofs.C03.tables_body_pct_hex',
 ]
 LEVEL = 'proof'
 TECHNIQUE = ('Lean 4 proof: round-trip of percent/plus encoding through the transcribed decoders by induction over '
              'the character / pair list, for every multimap, encoding style and round-tripping codec (UTF-8 = core '
              "Lean's verified codec); model tied to cherrypy by a differential run through a **kwargs handler")
-LEVEL_TEXT = 'see docs/C03.md'
-LEVEL_NOTE = 'see docs/C03.md'
+LEVEL_TEXT = ('Proved in Lean over the transcribed decoders, for every list of (key, value) texts (any length, characters, '
+              'repeats, empty keys/values), every per-character (query) / per-byte (body) encoding style (literal, + for '
+              'space, %XY with free hex case per digit; only % + & ; = must be escaped), every mix of & and ; with empty '
+              'segments, blank values with or without =, every split between query string and body, every codec with a '
+              "round-trip law (UTF-8 = core Lean's verified codec, Latin-1 on code points <= 255) placed behind any failing "
+              'attempts: the handler is called and each key carries exactly the values sent, query-string values before body '
+              'values, in wire order, scalar for one and flat list for several (C03_request_roundtrip, C03_qs_roundtrip, '
+              'C03_body_roundtrip, C03_merge); only an exact N,M (1-18 digits) is image-map coordinates (imageMap_iff); the '
+              'response is 404 iff the query string does not decode, 400 iff it does and no attempted charset decodes every '
+              'key and value of the body, and an accepted body was decoded by one single charset as a whole '
+              '(C03_handle_cases, C03_all_or_nothing_*). Partial: the UTF-16 family and ASCII decoders and malformed escapes '
+              'are modelled and compared with the real code (exhaustively on small scopes) but have no round-trip theorem; '
+              'query_string_encoding is proved for ASCII-compatible codecs only.')
+LEVEL_NOTE = ('Trusted: Lean kernel (axioms propext, Classical.choice, Quot.sound only); the hand model '
+              'lean/CpModel/UrlEnc.lean as validated on every run against cherrypy through a **kwargs handler (whole '
+              'requests), the anchored units, every %X/%XY item and exhaustive small strings; CPython codecs other than '
+              'UTF-8/Latin-1; the harness and its wire-level oracle (cross-checked with urllib.parse.parse_qsl).')
 TRUSTED_BASE = [
     'charset codecs other than UTF-8 / Latin-1 (UTF-16 family, ASCII) are hand-written decoders validated only by the '
     'differential `dec` stream against CPython codecs',
@@ -51,6 +95,54 @@ RULE = ('multimaps (0-8 pairs over 1-4 keys, texts of 0-20 characters drawn from
 
 CS_ENUM = {'utf-8': 'utf8', 'iso8859-1': 'latin1', 'ascii': 'ascii', 'utf-16': 'utf16',
            'utf-16-le': 'utf16le', 'utf-16-be': 'utf16be'}
+
+
+def tables(ctx):
+    """Finite facts of the anchored code, obtained by running / introspecting the live modules."""
+    cherrypy = _cherrypy()
+    from cherrypy import _cpreqbody, _cprequest
+    from cherrypy.lib import httputil
+    uq = _cpreqbody.unquote_plus
+    hexd = b'0123456789abcdefABCDEF'
+
+    def lst(xs):
+        return '[' + ', '.join(str(x) for x in xs) + ']'
+
+    def strs(xs):
+        return '[' + ', '.join(json.dumps(x) for x in xs) + ']'
+
+    pct1 = [lst(uq(b'%' + bytes([b]))) for b in range(256)]
+    pcthex = ['(%d, %d, %s)' % (h, l, lst(uq(b'%' + bytes([h, l])))) for h in hexd for l in hexd]
+    src = [
+        '/- GENERATED by harness/c03.py (tables) from the live cherrypy modules. Do not edit. -/',
+        'namespace CpModel.Gen.C03',
+        '',
+        '/-- `httputil.image_map_pattern.pattern` -/',
+        'def imageMapPattern : String := %s' % json.dumps(httputil.image_map_pattern.pattern),
+        '',
+        '/-- `_cpreqbody.Entity.attempt_charsets` (class default) -/',
+        'def defaultAttemptCharsets : List String := %s' % strs(_cpreqbody.Entity.attempt_charsets),
+        '',
+        '/-- `_cprequest.Request.query_string_encoding` -/',
+        'def queryStringEncoding : String := %s' % json.dumps(_cprequest.Request.query_string_encoding),
+        '',
+        '/-- `_cprequest.Request.methods_with_bodies` -/',
+        'def methodsWithBodies : List String := %s' % strs(_cprequest.Request.methods_with_bodies),
+        '',
+        "/-- `_cpreqbody.unquote_plus(b'%' + bytes([b]))` for b = 0 … 255 -/",
+        'def bodyPct1 : List (List Nat) := [',
+        ',\n'.join('  ' + ', '.join(pct1[i:i + 8]) for i in range(0, 256, 8)),
+        ']',
+        '',
+        "/-- `(h, l, _cpreqbody.unquote_plus(b'%' + bytes([h, l])))` for all 22 x 22 pairs of hex digits -/",
+        'def bodyPctHex : List (Nat × Nat × List Nat) := [',
+        ',\n'.join('  ' + ', '.join(pcthex[i:i + 6]) for i in range(0, len(pcthex), 6)),
+        ']',
+        '',
+        'end CpModel.Gen.C03',
+        '',
+    ]
+    return {'CpModel/Gen/C03Tables.lean': '\n'.join(src)}
 
 
 def cs_enum(name):
